@@ -1409,11 +1409,13 @@ impl TlvExec {
 /// strictly ascending tags `10 + 2j`, except for ONE defect:
 ///   `-` none | `d<i>` the tags of pairs i and i+1 swapped (the only descent is at i) |
 ///   `e<i>` pair i+1 carries the tag of pair i (equal tags: still sorted) |
-///   `f<i>:<len>` pair i is a value that reports `len` bytes and is never encoded (value type `h`)
+///   `f<i>:<len>` pair i is a value that reports `len` bytes and is never encoded (value type `h`) |
+///   `t<j>` the LAST pair carries the tag of pair j; pair j has the value `62`, the late pair `61` (ASCII, valid for every value type)
 /// (the Lean driver builds the same list: `Driver/RoughTlv.lean`, `runItems`).
 pub fn msgrun_items(l: usize, defect: &str) -> Option<String> {
     let mut tags: Vec<u32> = (0..l).map(|j| 10 + 2 * j as u32).collect();
     let mut fake: Option<(usize, u128)> = None;
+    let mut late: Option<usize> = None;
     if defect != "-" {
         let (kind, rest) = defect.split_at(1);
         match kind {
@@ -1427,6 +1429,16 @@ pub fn msgrun_items(l: usize, defect: &str) -> Option<String> {
                 } else {
                     tags[i + 1] = tags[i];
                 }
+            }
+            "t" => {
+                // a LATE pair: the last pair carries the tag of pair j (distinct one-byte values, so
+                // that the order of the tie is observable): stable sorting must put it after pair j
+                let j: usize = rest.parse().ok()?;
+                if l < 2 || j + 1 >= l {
+                    return None;
+                }
+                tags[l - 1] = tags[j];
+                late = Some(j);
             }
             "f" => {
                 let (i, len) = rest.split_once(':')?;
@@ -1450,6 +1462,8 @@ pub fn msgrun_items(l: usize, defect: &str) -> Option<String> {
         }
         match fake {
             Some((i, len)) if i == j => out.push_str(&format!("{}:f:{}", t, len)),
+            _ if late == Some(j) => out.push_str(&format!("{}:b:62", t)),
+            _ if late.is_some() && j + 1 == l => out.push_str(&format!("{}:b:61", t)),
             _ => out.push_str(&format!("{}:b:-", t)),
         }
     }
@@ -1539,6 +1553,18 @@ fn single_defect_sweep(thorough: bool) -> Vec<Vec<String>> {
             }
         }
         cut(&mut ops, &mut cases, true);
+        // a late pair tying with pair j (distinct values): ties must stay in insertion order through
+        // the sorting constructors, whatever shortcut they take for "almost sorted" lists
+        if l <= 258 {
+            for &j in &some_pos {
+                rot += 1;
+                ops.push(format!("msgrun {} {} {} t{}", if rot % 2 == 0 { "new" } else { "slice" }, vts[rot % 4], l, j));
+                if l <= 40 {
+                    ops.push("enc 0 iov".into());
+                }
+            }
+            cut(&mut ops, &mut cases, true);
+        }
         let fake_pos: Vec<usize> = if l <= 131 { (0..l).collect() } else { vec![0, 1, 63, 64, 65, l / 2, l - 2, l - 1] };
         for &i in &fake_pos {
             rot += 1;
